@@ -184,63 +184,104 @@ def base_terms_rule(ctx):
             raise AnalysisIncomplete("%s._log_prob missing" % cname)
         x = fi.params()[0][0]
         n = 0
+        from fractions import Fraction
+
+        from ..prodnf import NotMonomial, additive_terms, show_mono, show_term
+
+        def mentions_x(atom):
+            import re
+
+            if atom[0] == "leaf":
+                return re.search(r"(?<![\w.])%s(?![\w])" % re.escape(x), atom[1]) is not None
+            if atom[0] == "lin":
+                return any(mentions_x(a) for m, c in atom[1] for a, k in m)
+            if atom[0] in ("exp", "sum"):
+                return any(mentions_x(a) for a, k in atom[1])
+            return False
+
         for path in paths_of(fi.node):
             if path.kind != "return":
                 continue
             n += 1
-            terms = signed_terms(path.ret)
-            quad, logz, logstd, other = [], [], [], []
-            for s, t in terms:
-                ps, factors = product_factors(t)
-                sign = s * ps
-                txt = norm_text(t)
-                if _mentions(t, x):
-                    quad.append((sign, t, factors))
-                elif "self._log_z" in txt:
-                    logz.append((sign, t))
-                elif "sum_except_batch" in txt or ".sum(" in txt or "torch.sum" in txt:
-                    logstd.append((sign, t))
-                else:
-                    other.append((sign, t))
             node = path.ret_node
+            try:
+                terms = additive_terms(path.ret)
+            except NotMonomial as ex:
+                res.undecide("%s._log_prob" % cname, "log-density is not a sum of monomials: %s" % ex)
+                continue
+            quad, logz, logstd, other = [], [], [], []
+            for c, m in terms:
+                atoms = list(m.items())
+                if len(atoms) == 1 and atoms[0][1] == 1 and atoms[0][0][0] == "sum":
+                    (quad if mentions_x(atoms[0][0]) else logstd).append((c, atoms[0][0]))
+                elif len(atoms) == 1 and atoms[0][1] == 1 and atoms[0][0] == ("leaf", "self._log_z"):
+                    logz.append((c, atoms[0][0]))
+                elif any(mentions_x(a) for a, k in atoms):
+                    quad.append((c, None))
+                    other.append((c, m))
+                else:
+                    other.append((c, m))
             okp = True
-            if len(quad) != 1 or quad[0][0] != -1:
-                res.fail(Finding("BASE-TERMS", fi.module, fi.qualname, node, "expected exactly one input-dependent term with sign -; found %s" % [(s, norm_text(t)[:50]) for s, t, f in quad]))
+            std_sym = None
+            if len(quad) != 1 or quad[0][1] is None:
+                res.fail(Finding("BASE-TERMS", fi.module, fi.qualname, node, "expected exactly one input-dependent term, a reduction over the event of a square; found %s" % [show_term(c, m) for c, m in terms if any(mentions_x(a) for a in m)][:3]))
                 okp = False
             else:
-                t = quad[0][1]
-                has_sq = any(isinstance(k, ast.BinOp) and isinstance(k.op, ast.Pow) and const_number(k.right) == 2 for k in ast.walk(t)) or ".pow(2)" in norm_text(t) or "square" in norm_text(t)
-                red = [c for c in ast.walk(t) if isinstance(c, ast.Call) and norm_text(c.func).endswith("sum_except_batch")]
-                half = any(const_number(f) == 0.5 for f in quad[0][2])
-                if not has_sq or not half:
-                    res.fail(Finding("BASE-TERMS", fi.module, fi.qualname, node, "the input-dependent term is not -0.5 * sum((...)**2)"))
+                c, atom = quad[0]
+                inner = dict(atom[1])
+                xat = [(a, k) for a, k in inner.items() if mentions_x(a)]
+                rest = [(a, k) for a, k in inner.items() if not mentions_x(a)]
+                if c != Fraction(-1, 2):
+                    res.fail(Finding("BASE-TERMS", fi.module, fi.qualname, node, "the quadratic term must enter with the coefficient -1/2; found %s" % show_term(c, {atom: 1})[:90]))
                     okp = False
-                elif not red or any((_kwarg(c, "num_batch_dims", 1) is not None and const_number(_kwarg(c, "num_batch_dims", 1)) != 1) for c in red):
-                    res.fail(Finding("BASE-TERMS", fi.module, fi.qualname, node, "the quadratic term is not summed over exactly the event dimensions (sum_except_batch(..., num_batch_dims=1))"))
+                elif atom[2] != "nb=1":
+                    res.fail(Finding("BASE-TERMS", fi.module, fi.qualname, node, "the quadratic term is not summed over exactly the event dimensions (sum_except_batch(..., num_batch_dims=1)); found reduction `%s`" % atom[2]))
                     okp = False
+                elif len(xat) != 1 or xat[0][1] != 2:
+                    res.fail(Finding("BASE-TERMS", fi.module, fi.qualname, node, "the input-dependent term is not -0.5 * sum((...)**2): the inputs enter as `%s`" % show_mono(dict(xat))[:80]))
+                    okp = False
+                else:
+                    xa = xat[0][0]
+                    if xa[0] == "lin":
+                        coefs = [cc for mm, cc in xa[1] if any(mentions_x(a) for a, k in mm)]
+                        if coefs != [1]:
+                            res.fail(Finding("BASE-TERMS", fi.module, fi.qualname, node, "the inputs must enter the standardisation with coefficient +1"))
+                            okp = False
+                    if has_std and okp:
+                        exps = [(a, k) for a, k in rest if a[0] == "exp"]
+                        if len(exps) != 1 or len(rest) != 1:
+                            res.fail(Finding("BASE-TERMS", fi.module, fi.qualname, node, "the centred inputs must be scaled by exp(-log_std) and nothing else; found factors `%s`" % show_mono(dict(rest))[:80]))
+                            okp = False
+                        elif exps[0][1] != -2:
+                            res.fail(Finding("BASE-TERMS", fi.module, fi.qualname, node, "the centred inputs are multiplied by exp(log_std)^%s under the square; a Gaussian divides by the standard deviation (exponent -1, i.e. -2 under the square)" % (exps[0][1] / 2)))
+                            okp = False
+                        else:
+                            std_sym = exps[0][0][1]
+                    elif rest and okp:
+                        res.fail(Finding("BASE-TERMS", fi.module, fi.qualname, node, "unexpected scaling `%s` of the squared inputs" % show_mono(dict(rest))[:80]))
+                        okp = False
             if len(logz) != 1 or logz[0][0] != -1:
-                res.fail(Finding("BASE-TERMS", fi.module, fi.qualname, node, "expected the normaliser self._log_z exactly once with sign -; found %s" % [(s, norm_text(t)) for s, t in logz]))
+                res.fail(Finding("BASE-TERMS", fi.module, fi.qualname, node, "expected the normaliser self._log_z exactly once with sign -; found %s" % [float(c) for c, a in logz]))
                 okp = False
             if has_std:
                 if len(logstd) != 1 or logstd[0][0] != -1:
-                    res.fail(Finding("BASE-TERMS", fi.module, fi.qualname, node, "expected the summed log-std exactly once with sign -; found %s" % [(s, norm_text(t)[:50]) for s, t in logstd]))
+                    res.fail(Finding("BASE-TERMS", fi.module, fi.qualname, node, "expected the summed log-std exactly once with coefficient -1; found %s" % [show_term(c, {a: 1})[:60] for c, a in logstd]))
                     okp = False
-                elif quad:
-                    # the log-std that is summed is the one that scales the inputs, with exp(-log_std)
-                    lcore = logstd[0][1]
-                    inner = [c for c in ast.walk(lcore) if isinstance(c, ast.Call) and norm_text(c.func).endswith("sum_except_batch")]
-                    sym = norm_text(inner[0].args[0]) if inner and inner[0].args else None
-                    qtxt = norm_text(quad[0][1])
-                    if sym is None or ("torch.exp(-%s)" % sym not in qtxt and "/ torch.exp(%s)" % sym not in qtxt and "torch.exp(-(%s))" % sym not in qtxt):
-                        res.fail(Finding("BASE-TERMS", fi.module, fi.qualname, node, "the inputs are not standardised with exp(-log_std) of the same log_std whose sum is subtracted"))
+                elif std_sym is not None:
+                    # the log-std that is summed is the one that scales the inputs
+                    if logstd[0][1][1] != std_sym:
+                        res.fail(Finding("BASE-TERMS", fi.module, fi.qualname, node, "the inputs are not standardised with exp(-log_std) of the same log_std whose sum is subtracted (scaled by exp[%s], subtracted sum[%s])" % (show_mono(std_sym)[:40], show_mono(logstd[0][1][1])[:40])))
+                        okp = False
+                    elif logstd[0][1][2] != "nb=1":
+                        res.fail(Finding("BASE-TERMS", fi.module, fi.qualname, node, "the log-std is not summed over exactly the event dimensions"))
                         okp = False
             elif logstd:
-                other.extend(logstd)
+                other.extend((c, {a: 1}) for c, a in logstd)
             if other:
-                res.fail(Finding("BASE-TERMS", fi.module, fi.qualname, node, "unexpected extra terms %s" % [norm_text(t)[:40] for s, t in other]))
+                res.fail(Finding("BASE-TERMS", fi.module, fi.qualname, node, "unexpected extra terms %s" % [show_term(c, m)[:50] for c, m in other]))
                 okp = False
             if okp:
-                res.ok("%s._log_prob path %d: -quadratic %s- log_z" % (cname, n, "- sum(log_std) " if has_std else ""))
+                res.ok("%s._log_prob path %d: -1/2 sum(square) %s- log_z" % (cname, n, "- sum(log_std) " if has_std else ""))
         # the normaliser is a function of the constructor's shape and constants only
         ai = p.attrs(cls).get("_log_z")
         if ai is None or ai.value is None:
